@@ -503,8 +503,15 @@ impl<'a, 'b> G<'a, 'b> {
                     let inl = in_loop.clone().or(Some(("n".into(), 3)));
                     let then = self.items(decls, inl.clone(), depth + 1, nested);
                     let els = if self.t.chance(128) {
-                        let e = self.items(decls, inl, depth + 1, nested);
-                        Some(Box::new(Stmt::Block { id: self.ids.next(), stmts: e }))
+                        let mut e = self.items(decls, inl, depth + 1, nested);
+                        let bare_ok = e.len() == 1 && matches!(e[0], Stmt::Assign { .. } | Stmt::If { .. } | Stmt::For { .. } | Stmt::ExprStmt { .. });
+                        if bare_ok && self.t.chance(170) {
+                            // `else stmt;` / `else if (..) {..}`: an else-case that is not a block
+                            self.forms.push("else-case without braces");
+                            e.pop().map(Box::new)
+                        } else {
+                            Some(Box::new(Stmt::Block { id: self.ids.next(), stmts: e }))
+                        }
                     } else {
                         None
                     };
